@@ -13,6 +13,11 @@ import (
 // positions (checked by refchess.Validate in the self test).
 var curatedFENs = []string{
 	rc.StartFEN,
+	// en passant whose *captured* pawn is the only shield of the own king on a diagonal
+	// (the capturing pawn itself is on no line with the king)
+	"8/6k1/8/8/2pP4/8/1B6/4K3 b - d3 0 1",
+	"4k3/1b6/8/2Pp4/8/8/6K1/8 w - d6 0 1",
+	"k7/8/8/8/3pP3/8/8/4K2Q b - e3 0 1",
 	// perft suite (chessprogramming wiki)
 	"r3k2r/p1ppqpb1/bn2pnp1/3PN3/1p2P3/2N2Q1p/PPPBBPPP/R3K2R w KQkq - 0 1",
 	"8/2p5/3p4/KP5r/1R3p1k/8/4P1P1/8 w - - 0 1",
